@@ -30,23 +30,24 @@ Definition colon : ascii := ":"%char.
 
 (** buildTagOk. [None] would be a Go run-time panic (none is left since the repair of the
     empty-tag case: an empty tag never matches). *)
+Definition y_tag_val (c : ctx) (t' : str) : bool :=
+  if mem t' (btags c) then true
+  else if str_eqb t' (goos c) then true
+  else if str_eqb t' (goarch c) then true
+  else if (4 <? length t') && has_prefix (s "go1.") t' then
+    match atoi (skipn 4 t') with
+    | None => false
+    | Some n => (n <=? minor c)%Z
+    end
+  else false.
+
 Definition y_tag_ok (c : ctx) (t : str) : option bool :=
   match t with
   | [] => Some false
   | a :: r =>
       let neg := Ascii.eqb a bang in
       let t' := if neg then r else t in
-      let v :=
-        if mem t' (btags c) then true
-        else if str_eqb t' (goos c) then true
-        else if str_eqb t' (goarch c) then true
-        else if (4 <? length t') && has_prefix (s "go1.") t' then
-          match atoi (skipn 4 t') with
-          | None => false
-          | Some n => (n <=? minor c)%Z
-          end
-        else false in
-      Some (xorb neg v)
+      Some (xorb neg (y_tag_val c t'))
   end.
 
 (** buildOptionOk on the already split option: AND, leaving at the first false tag. *)
